@@ -29,6 +29,11 @@ pub struct ThCfg {
     /// the application recycles one `Buffer` (`clear()`) for every stream it reads instead of a fresh one per stream
     #[serde(default)]
     pub reuse_buffer: bool,
+    /// also read the stream through the public file-based reader: 1 a regular temp file (`Reader::open`),
+    /// 2 a socket-backed `File` (`Reader::new`) that delivers the stream in two pieces split at `split`
+    /// (after the header), so that reads come back short although more data follows
+    #[serde(default)]
+    pub via_file: u8,
 }
 
 #[derive(Clone, Debug, Serialize, Deserialize, PartialEq)]
@@ -525,6 +530,73 @@ fn parse(cb: &mut FragCb, recycled: Option<&mut th::Buffer>) -> Result<Parsed, P
     })
 }
 
+/// Reads the stream through the public, file-based `teehistorian::Reader`. `Ok(None)`: the harness could
+/// not set the file up (or the stream has no complete header, which a blocking stream file cannot deliver).
+fn file_parse(cfg: &ThCfg, bytes: &[u8]) -> Result<Option<(Vec<String>, End)>, PanicInfo> {
+    use std::io::Write;
+    let hdr_end = match bytes.iter().skip(16).position(|&b| b == 0) {
+        Some(p) if bytes.len() >= 16 => 16 + p + 1,
+        _ => return Ok(None),
+    };
+    let path = std::env::temp_dir().join(format!("tw2sim-th-{}-{:016x}-{:?}.teehistorian", std::process::id(), cfg.seed, std::thread::current().id()).replace(['(', ')'], ""));
+    let mut second_piece: Option<(std::os::unix::net::UnixStream, Vec<u8>)> = None;
+    let file = if cfg.via_file == 2 {
+        let (mut tx, rx) = match std::os::unix::net::UnixStream::pair() {
+            Ok(p) => p,
+            Err(_) => return Ok(None),
+        };
+        let _ = rx.set_read_timeout(Some(std::time::Duration::from_secs(5)));
+        let split = hdr_end + (cfg.split as usize % (bytes.len() - hdr_end + 1));
+        if tx.write_all(&bytes[..split]).is_err() {
+            return Ok(None);
+        }
+        second_piece = Some((tx, bytes[split..].to_vec()));
+        std::fs::File::from(std::os::fd::OwnedFd::from(rx))
+    } else {
+        if std::fs::write(&path, bytes).is_err() {
+            return Ok(None);
+        }
+        match std::fs::File::open(&path) {
+            Ok(f) => f,
+            Err(_) => return Ok(None),
+        }
+    };
+    let r = guard(move || {
+        let mut buffer = libtw2_teehistorian::Buffer::new();
+        let mut items: Vec<String> = Vec::new();
+        let name = |e: &libtw2_teehistorian::Error| match e {
+            libtw2_teehistorian::Error::Teehistorian(f) => format!("{:?}", f),
+            libtw2_teehistorian::Error::Io(_) => "callback-error".to_string(),
+        };
+        let mut reader = match libtw2_teehistorian::Reader::new(file, &mut buffer) {
+            Ok((_h, r)) => r,
+            Err(e) => return (items, End::Err(format!("header: {}", name(&e))), matches!(e, libtw2_teehistorian::Error::Io(_))),
+        };
+        // the rest of the stream arrives (and the sender closes) before the first item is asked for
+        if let Some((mut tx, rest)) = second_piece {
+            let _ = tx.write_all(&rest);
+            drop(tx);
+        }
+        loop {
+            match reader.read(&mut buffer) {
+                Ok(None) => return (items, End::Finished, false),
+                Err(e) => return (items, End::Err(name(&e)), matches!(e, libtw2_teehistorian::Error::Io(_))),
+                Ok(Some(item)) => items.push(format!("{:?}", item)),
+            }
+            if items.len() > 2_000_000 {
+                return (items, End::Err("too many items".into()), false);
+            }
+        }
+    });
+    let _ = std::fs::remove_file(&path);
+    match r {
+        Err(p) => Err(p),
+        // an I/O error of the real file (e.g. the read timeout of the socket) is the harness's problem
+        Ok((_, _, true)) => Ok(None),
+        Ok((items, end, false)) => Ok(Some((items, end))),
+    }
+}
+
 fn err_name<CE>(e: &th::Error<CE>) -> String {
     match e {
         th::Error::Teehistorian(f) => format!("{:?}", f),
@@ -588,6 +660,7 @@ impl Engine for ThEngine {
             damage_at: c.next_u64() as u32,
             damage_val: *c.pick(&[0u8, 0xff, 0x7f, 0x80, 0x40, 0x3f, 1]),
             reuse_buffer: c.chance(1, 3),
+            via_file: if c.chance(1, 5) { 1 + c.below(2) as u8 } else { 0 },
         };
         let n = match c.below(10) {
             0..=3 => c.range(1, 30),
@@ -741,6 +814,29 @@ impl Engine for ThEngine {
             // hard read error: the run must end with the callback error (or earlier, identically); no comparison beyond "no panic"
             return None;
         }
+        if cfg.via_file != 0 && bytes.len() <= 100_000 {
+            match file_parse(cfg, &bytes) {
+                Err(p) => {
+                    return Some(v("panic", &[("schedule", "file-reader"), ("message", &p.msg_class()), ("file", &p.file_class())], format!("the file-based reader panicked: {} at {}:{}", p.msg, p.file, p.line)));
+                }
+                Ok(None) => ctx.count("probe_file_reader_unavailable"),
+                Ok(Some((items, end))) => {
+                    ctx.count(if cfg.via_file == 2 { "probe_file_reader_socket" } else { "probe_file_reader_regular" });
+                    if cfg.via_file == 2 {
+                        ctx.fault_inflight = true;
+                        ctx.count("fault_short_read_from_stream_file");
+                    }
+                    if items != reference.items || end != reference.end {
+                        let at = items.iter().zip(reference.items.iter()).position(|(a, b)| a != b);
+                        return Some(v(
+                            "depends-on-fragmentation",
+                            &[("what", if at.is_none() && items.len() == reference.items.len() { "end" } else { "items" }), ("damaged", if damaged { "yes" } else { "no" }), ("reader", if cfg.via_file == 2 { "file-over-socket" } else { "file" })],
+                            format!("the same {}-byte stream gives {} items ending {:?} through the incremental reader in one piece but {} items ending {:?} through the public file reader ({}); first difference at item {:?}", bytes.len(), reference.items.len(), reference.end, items.len(), end, if cfg.via_file == 2 { "socket-backed File, two pieces" } else { "regular file" }, at),
+                        ));
+                    }
+                }
+            }
+        }
         if frag.items != reference.items || frag.end != reference.end {
             let at = frag.items.iter().zip(reference.items.iter()).position(|(a, b)| a != b);
             let kind = if frag.end != reference.end && at.is_none() && frag.items.len() == reference.items.len() { "end" } else { "items" };
@@ -798,7 +894,7 @@ impl Engine for ThEngine {
             real: vec!["teehistorian::raw::Reader", "teehistorian::raw::Buffer", "teehistorian::format (header, item decoders)", "packer", "buffer"],
             stub: vec!["the file (simulated stream behind the read callback)"],
             required_probes: vec!["probe_valid_stream_checked", "probe_stream_over_one_buffer", "probe_pieces"],
-            fault_kinds: vec!["fault_fragmentation", "fault_zero_length_read", "fault_torn_tail", "fault_bit_flip", "fault_byte_overwrite", "fault_read_error"],
+            fault_kinds: vec!["fault_short_read_from_stream_file", "fault_fragmentation", "fault_zero_length_read", "fault_torn_tail", "fault_bit_flip", "fault_byte_overwrite", "fault_read_error"],
         }
     }
 }
